@@ -1,5 +1,6 @@
 //! Simulator kernel shared by all engines.
 pub mod log;
+pub mod pipe;
 pub mod sched;
 
 pub use log::Log;
